@@ -109,6 +109,10 @@ Definition alloc_inode (f : fs) (x : inode) : fs * nat :=
 Definition tick (f : fs) (t : Z) : fs :=
   mkFs (names f) (inodes f) (fds f) (next_ino f) (next_fd f) (Z.max (kclock f) t).
 
+(** The kernel's own clock: strictly later than anything it stamped before. *)
+Definition now_k (f : fs) : Z := (kclock f + 1)%Z.
+Definition bump (f : fs) : fs := tick f (now_k f).
+
 Definition trunc (g t : Z) : Z := if (g <=? 1)%Z then t else (t - t mod g)%Z.
 
 (** * Path resolution (PathBuf::push followed by kernel lookup) *)
@@ -228,12 +232,12 @@ Definition sem (f : fs) (e : env) (c : call) : fs * res :=
                   if excl then (f, RErr EEXIST) else
                   with_inode f i (fun x =>
                     if i_dir x then (f, RErr EISDIR) else
-                    let t := trunc g (kclock f) in
-                    let f1 := set_inode f i (mkInode false [] (i_mode x) t (i_atime x) (i_nlink x) false) in
+                    let t := trunc g (now_k f) in
+                    let f1 := set_inode (bump f) i (mkInode false [] (i_mode x) t (i_atime x) (i_nlink x) false) in
                     let '(f2, d) := alloc_fd f1 (mkFd i 0 WRONLY false p) in (f2, RFd d))
               | None =>
-                  let t := trunc g (kclock f) in
-                  let '(f1, i) := alloc_inode f (mkInode false [] mode t t 1 false) in
+                  let t := trunc g (now_k f) in
+                  let '(f1, i) := alloc_inode (bump f) (mkInode false [] mode t t 1 false) in
                   let f2 := set_names f1 ((cp, i) :: names f1) in
                   let '(f3, d) := alloc_fd f2 (mkFd i 0 (if excl then RDWR else WRONLY) false p) in
                   (f3, RFd d)
@@ -248,8 +252,8 @@ Definition sem (f : fs) (e : env) (c : call) : fs * res :=
           | None => (f, RErr ENOENT)
           | Some false => (f, RErr ENOTDIR)
           | Some true =>
-              let t := trunc g (kclock f) in
-              let '(f1, i) := alloc_inode f (mkInode false [] 384 t t 0 false) in
+              let t := trunc g (now_k f) in
+              let '(f1, i) := alloc_inode (bump f) (mkInode false [] 384 t t 0 false) in
               let '(f2, d) := alloc_fd f1 (mkFd i 0 RDWR false dp) in
               (f2, RFd d)
           end
@@ -284,8 +288,9 @@ Definition sem (f : fs) (e : env) (c : call) : fs * res :=
           | WRONLY => (f, RErr EBADF)
           | _ =>
               with_inode f (fd_ino x) (fun y =>
-                let avail := skipn (N.to_nat (fd_off x)) (i_data y) in
-                let got := firstn (N.to_nat n) avail in
+                let len := N.of_nat (List.length (i_data y)) in
+                let avail := skipn (N.to_nat (N.min (fd_off x) len)) (i_data y) in
+                let got := firstn (N.to_nat (N.min n len)) avail in
                 let f1 := set_fd f d (mkFd (fd_ino x) (fd_off x + N.of_nat (List.length got)) (fd_acc x) (fd_isdir x) (fd_path x)) in
                 let touch := match e_atime e with
                              | Noatime => false
@@ -294,9 +299,9 @@ Definition sem (f : fs) (e : env) (c : call) : fs * res :=
                              end in
                 let f2 := if (touch && negb (match got with [] => true | _ => false end))%bool
                           then set_inode f1 (fd_ino x)
-                                 (mkInode (i_dir y) (i_data y) (i_mode y) (i_mtime y) (trunc g (kclock f)) (i_nlink y) (i_synced y))
+                                 (mkInode (i_dir y) (i_data y) (i_mode y) (i_mtime y) (trunc g (Z.max (now_k f) (i_mtime y))) (i_nlink y) (i_synced y))
                           else f1 in
-                (f2, RData got))
+                (bump f2, RData got))
           end
       end
   | CWrite d data =>
@@ -311,8 +316,8 @@ Definition sem (f : fs) (e : env) (c : call) : fs * res :=
                 let old := i_data y in
                 let pad := repeat 0%N (off - List.length old) in
                 let new := firstn off (old ++ pad) ++ data ++ skipn (off + List.length data) old in
-                let f1 := set_inode f (fd_ino x)
-                            (mkInode (i_dir y) new (i_mode y) (trunc g (kclock f)) (i_atime y) (i_nlink y) false) in
+                let f1 := set_inode (bump f) (fd_ino x)
+                            (mkInode (i_dir y) new (i_mode y) (trunc g (now_k f)) (i_atime y) (i_nlink y) false) in
                 let f2 := set_fd f1 d (mkFd (fd_ino x) (fd_off x + N.of_nat (List.length data)) (fd_acc x) (fd_isdir x) (fd_path x)) in
                 (f2, ROk))
           end
@@ -322,13 +327,13 @@ Definition sem (f : fs) (e : env) (c : call) : fs * res :=
       | Some xs, Some xd =>
           match inode_of f (fd_ino xs), inode_of f (fd_ino xd) with
           | Some ys, Some yd =>
-              let data := skipn (N.to_nat (fd_off xs)) (i_data ys) in
+              let data := skipn (N.to_nat (N.min (fd_off xs) (N.of_nat (List.length (i_data ys))))) (i_data ys) in
               let off := N.to_nat (fd_off xd) in
               let old := i_data yd in
               let pad := repeat 0%N (off - List.length old) in
               let new := firstn off (old ++ pad) ++ data ++ skipn (off + List.length data) old in
-              let f1 := set_inode f (fd_ino xd)
-                          (mkInode (i_dir yd) new (i_mode yd) (trunc g (kclock f)) (i_atime yd) (i_nlink yd) false) in
+              let f1 := set_inode (bump f) (fd_ino xd)
+                          (mkInode (i_dir yd) new (i_mode yd) (trunc g (now_k f)) (i_atime yd) (i_nlink yd) false) in
               let f2 := set_fd f1 d (mkFd (fd_ino xd) (fd_off xd + N.of_nat (List.length data)) (fd_acc xd) (fd_isdir xd) (fd_path xd)) in
               let f3 := set_fd f2 s (mkFd (fd_ino xs) (fd_off xs + N.of_nat (List.length data)) (fd_acc xs) (fd_isdir xs) (fd_path xs)) in
               (* reading the source marks it as accessed under relatime/strict *)
@@ -338,7 +343,7 @@ Definition sem (f : fs) (e : env) (c : call) : fs * res :=
               let f4 := if (touch && negb (match data with [] => true | _ => false end))%bool
                         then match inode_of f3 (fd_ino xs) with
                              | Some y' => set_inode f3 (fd_ino xs)
-                                            (mkInode (i_dir y') (i_data y') (i_mode y') (i_mtime y') (trunc g (kclock f)) (i_nlink y') (i_synced y'))
+                                            (mkInode (i_dir y') (i_data y') (i_mode y') (i_mtime y') (trunc g (Z.max (now_k f) (i_mtime y'))) (i_nlink y') (i_synced y'))
                              | None => f3 end
                         else f3 in
               (f4, ROk)
@@ -457,8 +462,8 @@ Definition sem (f : fs) (e : env) (c : call) : fs * res :=
               match name_of f cp with
               | Some _ => (f, RErr EEXIST)
               | None =>
-                  let t := trunc g (kclock f) in
-                  let '(f1, i) := alloc_inode f (mkInode true [] 493 t t 2 true) in
+                  let t := trunc g (now_k f) in
+                  let '(f1, i) := alloc_inode (bump f) (mkInode true [] 493 t t 2 true) in
                   (set_names f1 ((cp, i) :: names f1), ROk)
               end
           end
